@@ -4,6 +4,7 @@ import string
 
 from ..core import World, Violation, Skip, SimCrash
 from ..seams import SimFS, SimClock, REAL_OPEN
+from ..filekit import FileKit, gen_alloc
 
 SYMBOLS = ['H', 'C', 'O', 'N', 'S', 'F', 'B', 'K', 'P', 'I', 'U', 'W', 'V', 'Y',
            'He', 'Li', 'Ne', 'Na', 'Mg', 'Al', 'Si', 'Cl', 'Ar', 'Ca', 'Fe', 'Ni', 'Cu', 'Pt', 'Pd', 'Ru', 'Ag', 'Au']
@@ -47,7 +48,7 @@ class WorldC05(World):
               'name-starts-with-digit', 'zero-count-entry', 'dict-input', 'tuple-read', 'dict-read', 'crlf-newline',
               'supp-data', 'supp-txt', 'supp-record-shares-a-name', 'second-generation', 'rewrite-after-in-place-edit', 'cross-encoding-read-refused', 'non-ascii-name', 'same-length-overwrite',
               'persistent-fault', 'no-date', 'extreme-coefficients', 'zero-coefficient', '>=50-species',
-              'clock-jump-before-write', 'fault-did-not-fire', 'comment-with-keyword', 'two-letter-three-digit', 'recovery-after-fault')
+              'clock-jump-before-write', 'fault-did-not-fire', 'comment-with-keyword', 'two-letter-three-digit', 'recovery-after-fault', 'alloc-failure-signalled', 'alloc-failure-over-existing-file')
     REAL = ('pmutt.io.thermdat.write_thermdat / read_thermdat and helpers', 'pmutt.empirical.nasa.Nasa')
     SIMULATED = ('disk: SimFS shim over a scratch directory (open/write/close errors, ENOSPC after k chars, crash at '
                  'pre_open/post_open/mid_write/pre_close, read-open and mid-read errors)',
@@ -261,6 +262,8 @@ class WorldC05(World):
             # bias: a fault right after an overwrite/failed write is more interesting
             if kind == 'write' and wf and fault is None and path in self.failed_last and rng.random() < sw['fault_rate']:
                 fault = self._fault(rng, wf)
+            if kind == 'write' and fault is None:
+                fault = gen_alloc(rng)
             reuse = None
             if self.last is not None and rng.random() < sw.get('w_reuse', 0.0):
                 # the caller keeps its species objects, adjusts enthalpies in place (a_low[5] += dH/R) and writes again
@@ -557,6 +560,9 @@ class WorldC05(World):
             return self._op_read(a, op.get('fault'))
         raise Skip()
 
+    def run(self, fn, fault=None):
+        return self._with_seams(fn, fault)
+
     def _with_seams(self, fn, fault):
         fs = self.fs
         self.clock.install()
@@ -656,6 +662,14 @@ class WorldC05(World):
             self.history.append((ctx.step, path, 'ack'))
             return 'ack %d' % len(a['species'])
         date8 = self._date8()
+        if fault['kind'] == 'alloc_error':
+            self.shape[path] = None
+            out = FileKit.write_alloc(self, path, lambda fn: self.real(self._call_write, a, fn, _what='write_thermdat (counting)'),
+                                      lambda fn: self._call_write(a, fn), lambda: self._op_write(a, None),
+                                      lambda text: self._check_layout(text, a, a['newline'], 'write %s' % path, date8),
+                                      'write_thermdat', self._expected(a), fault)
+            self.history.append((ctx.step, path, out))
+            return out
         st, val = self._with_seams(lambda: self.real(self._call_write, a, fs.path(path), _what='write_thermdat',
                                                      _allowed=(OSError,)), fault)
         used = self._fault_used
